@@ -384,11 +384,16 @@ static void accept_case(size_t max_depth) {
     int rc = run_parse(max_depth);
     __CPROVER_assert(rc == AWS_OP_SUCCESS, "well-formed document within the limits is accepted");
     __CPROVER_assert(r_seen == r_nreach, "every element the program reaches is reported (exactly once: count)");
-    /* reachability of the interesting programs (after the parse: the path through the parser is feasible) */
+    /* reachability of the interesting programs (after the parse: the path through the parser is feasible); only those
+     * the enumeration of this unit contains */
     if (r_el[0].act == ACT_DESCEND) CANARY("descend into the root");
+#    if NM0_LO == 0
     if (r_el[0].act == ACT_BODY && r_el[0].nm == 0 && r_el[1].nm == 1) CANARY("body read of <a> whose child is <ab> (name extends its own)");
     if (r_el[0].act == ACT_SKIP && r_el[0].nm == 0 && r_el[1].nm == 1) CANARY("skip of <a> whose child is <ab>");
+#    endif
+#    ifdef HAVE_ATTR_VARIANT
     if (r_el[0].act == ACT_BODY && r_el[0].nm == r_el[1].nm && r_el[1].nattr > 0) CANARY("body read of an element whose child has the same name and attributes");
+#    endif
 #    if VERIF_XML_SHAPE == 1
     if (r_el[0].act == ACT_DESCEND && r_el[1].act == ACT_SKIP && r_el[2].act == ACT_BODY) CANARY("first child skipped, second child read");
 #    else
@@ -433,7 +438,8 @@ void h_reject(void) {
     for (nm[0] = NM0_LO; nm[0] <= NM0_HI; ++nm[0])
         for (nm[1] = NM1_LO; nm[1] <= NM1_HI; ++nm[1])
             for (nm[2] = 0; nm[2] < 3; ++nm[2])
-                for (int v = 0; v < N_VARIANT; ++v) {
+                {
+                    int v = (nm[0] + nm[1] + nm[2]) % N_VARIANT; /* one layout variant per combination of names */
                     /* (a) the closing tag of element d is missing; the program reaches element d */
                     for (int d = 0; d < NUSED; ++d)
                         for (int skip_d = 0; skip_d < 2; ++skip_d) {
@@ -538,8 +544,8 @@ void h_attrs(void) {
     for (int n = 0; n <= 3; ++n)
         for (int q = 0; q < (1 << n); ++q)
             for (int nm0 = 0; nm0 < 3; ++nm0)
-                for (int skip0 = 0; skip0 < 2; ++skip0)
-                    for (int t = 0; t < 2; ++t) {
+                for (int skip0 = 0; skip0 < 2; ++skip0) {
+                        int t = (n + nm0) & 1; /* text empty or one byte */
                         int kinds[3] = {(q & 1) ? AK_QUOTED : AK_PLAIN, (q & 2) ? AK_QUOTED : AK_PLAIN, (q & 4) ? AK_QUOTED : AK_PLAIN};
                         r_len = 0;
                                             put_open(0, nm0, 0, -1, skip0, n, kinds);
